@@ -55,9 +55,13 @@ def run(ctx, R):
         R.floor('v2 length guards on accepting paths', n_guard, 48)
         R.floor('v2 reads on accepting paths', n_read, 100)
     C06.auto_table(ctx, R, 'C04.H', only=['v2 accepts', 'v2 terminal'])
+    # C04.L the number of bytes to drain: len() / as_bytes() of an accepted v2 header are the reported header, 16 + declared length (rule shared with C14.L)
+    from rules import C14 as C14mod
+    C14mod.views(ctx, R, names=('len', 'as_bytes', 'length'), rule='C04.L')
     try:
         from rules import v1model, C16 as C16mod
         v1model.c04_w(ctx, R)
+        v1model.v1_no_panic(ctx, R, 'C04.W')
         # the FromStr entry points return exactly what try_from(&str) accepted (header text included)
         C16mod.fromstr_delegation(ctx, R, 'C04.F')
     except ImportError:
